@@ -19,9 +19,25 @@ def optHex : Option Float → String
   | some x => floatToHex x
 def nats (xs : List String) : List Nat := xs.map String.toNat!
 
+def vshow (v : List Nat) : String := if v.isEmpty then "e" else ",".intercalate (v.map toString)
+def optV : Option (List Nat) → String
+  | none => "N"
+  | some v => vshow v
+/-- split a token list at "|" -/
+def splitBar (xs : List String) : List (List String) :=
+  xs.foldr (fun x acc => if x = "|" then [] :: acc else match acc with | [] => [[x]] | a :: r => (x :: a) :: r) [[]]
+/-- the two in-place mutators / pure functions the harness uses -/
+def mutOf (kind : String) (k : Nat) : List Nat → List Nat :=
+  if kind = "push" then fun v => v ++ [k] else if kind = "set0" then fun v => match v with | [] => [] | _ :: r => k :: r
+  else fun v => v.map (· + k)
+
 structure DState where
   dens : Dens Float := Dens.init 0
   diam : Diam Float := Diam.init 0
+  ts : TS (List Nat) := TS.init 0
+  objs : Array Nat := #[]
+  vt : Nat → Option Nat := fun _ => none
+  vtn : Nat := 0
 
 def grid (n : Nat) (f : Nat → Nat → String) : String :=
   " ".intercalate ((List.range n).flatMap fun i => (List.range n).map fun j => f i j)
@@ -39,6 +55,31 @@ def step (s : DState) (toks : List String) : DState × String :=
   | ["diam.obs"] =>
       let d := s.diam
       (s, s!"diam {" ".intercalate ((List.range d.n).map fun t => optHex (d.diam t))} volume {" ".intercalate ((List.range d.n).map fun t => optHex (d.volume t))} sigma {grid d.n fun i j => optHex (d.sigma i j)} check {d.check}")
+  -- ---------------- C14 PairTable (heap level) / ValueTable
+  | ["pt.new", n] => ({ s with ts := TS.init n.toNat!, objs := #[] }, "ok")
+  | "pt.obj" :: vs => ({ s with ts := s.ts.newObj (nats vs), objs := s.objs.push s.ts.next }, s!"{s.objs.size}")
+  | ["pt.mutobj", k, kind, x] => ({ s with ts := s.ts.mutRef (s.objs[k.toNat!]!) (mutOf kind x.toNat!) }, "ok")
+  | "pt.set" :: T :: k :: rest =>
+      match splitBar rest with
+      | [_, is, js] => ({ s with ts := s.ts.setFrom T.toNat! (nats is) (nats js) (s.objs[k.toNat!]!) }, "ok")
+      | _ => (s, "bad-op")
+  | ["pt.unset", T, k] => ({ s with ts := s.ts.setUnsetFrom T.toNat! (s.objs[k.toNat!]!) }, "ok")
+  | ["pt.applyin", T, kind, x] => ({ s with ts := s.ts.applyIn T.toNat! (mutOf kind x.toNat!) }, "ok")
+  | ["pt.applyout", T, kind, x] => ({ s with ts := s.ts.applyOut T.toNat! (mutOf kind x.toNat!) }, s!"{s.ts.ntab}")
+  | ["pt.mutate", T, i, j, kind, x] => ({ s with ts := s.ts.mutate T.toNat! i.toNat! j.toNat! (mutOf kind x.toNat!) }, "ok")
+  | ["pt.obs"] =>
+      let t := s.ts
+      let tabs := (List.range t.ntab).map fun T =>
+        s!"T{T} {grid t.n fun i j => optV (t.get T i j)} check {t.check T}"
+      let objs := s.objs.toList.map fun r => optV (t.cell r)
+      (s, s!"{" ".intercalate tabs} objs {" ".intercalate objs}")
+  | ["pt.iter", n, full, diag] =>
+      (s, " ".intercalate ((iterpairs n.toNat! (full = "1") (diag = "1")).map fun p => s!"{p.1}:{p.2}"))
+  | ["vt.new", n] => ({ s with vt := fun _ => none, vtn := n.toNat! }, "ok")
+  | "vt.set" :: v :: ts => ({ s with vt := vtSet s.vt (nats ts) v.toNat! }, "ok")
+  | ["vt.unset", v] => ({ s with vt := vtSetUnset s.vtn s.vt v.toNat! }, "ok")
+  | ["vt.obs"] =>
+      (s, s!"{" ".intercalate ((vtIter s.vtn s.vt).map fun p => s!"{p.1}:{match p.2 with | none => "N" | some v => toString v}")} check {vtCheck s.vtn s.vt}")
   | _ => (s, "bad-op")
 
 partial def loop (h : IO.FS.Stream) (out : IO.FS.Stream) (s : DState) : IO Unit := do
